@@ -151,6 +151,18 @@ def run(R):
             for policy, bulk in (("partial_first", 20), ("partial_last", 25), ("fewer", 10)):
                 run_one(R, "v2c", roots, big, "bulkwalk", bulk, policy, 99, "big")
                 R.mon["big_walks"] += 1
+    if R.shard == 2 % R.nshards:
+        for label, roots, db in wc.boundary_cases():
+            many = len(roots) > 200
+            if many and R.tier == "quick" and label != "257-roots":
+                continue
+            for bulk, policy in ((1, "full"), (2, "partial_last"), (3, "fewer"), (10, "full"), (2, "partial_first")):
+                if many and R.tier == "quick" and bulk != 2:
+                    continue
+                ys = run_one(R, "v2c", roots, db, "bulkwalk", bulk, policy, 5, label)
+                R.mon["boundary_bulkwalks"] += 1
+                if ys is not None and bulk == 3:
+                    run_one(R, "v3-sha1-priv", roots, db, "pybulkwalk", bulk, policy, 5, label)
     if R.shard == 0:
         corner = [
             ([(1, 3, 1), (1, 3, 2)], {(1, 3, 2, 1): ("int", 1), (1, 3, 2, 2): ("int", 2), (1, 3, 3, 0): ("int", 3)}),
